@@ -370,6 +370,24 @@ class Discharger:
             return None
         if d.startswith("unwrap") or d.startswith("expect"):
             a = S.val(t["args"][0])
+            # VARIANT-DOM: the value's variant was tested on this path (`let Ok(x) = r else { .. r.unwrap_err() .. }`, `if r.is_none() { return } r.unwrap()` as a match)
+            callee_ = t.get("callee") or ""
+            need = None
+            if re.search(r"Option::<T>::(unwrap|expect)$", callee_):
+                need = 1
+            elif re.search(r"Result::<T, E>::(unwrap|expect)$", callee_):
+                need = 0
+            elif re.search(r"Result::<T, E>::(unwrap_err|expect_err)$", callee_):
+                need = 1
+            arg_l = t["args"][0].get("pl", {}).get("l")
+            mut_borrowed = any(st["rhs"]["rv"] == "ref" and st["rhs"].get("mut") and st["rhs"]["pl"]["l"] == arg_l
+                               for bl in fn.blocks if not bl["cleanup"] for st in bl["stmts"])
+            if need is not None and not mut_borrowed:
+                # (a value that is never mutably borrowed cannot have changed variant between the test and the call)
+                for (e, truth, g) in facts:
+                    if e == "discr(%s)" % a.lstrip("&*") and (truth == ("==", need) or (isinstance(truth, tuple) and truth[0] in ("notin", "!=") and
+                                                                                         (set(truth[1]) if truth[0] == "notin" else {truth[1]}) == {1 - need})):
+                        return ("VARIANT-DOM", "the variant of %s was tested in bb%d" % (a[:60], g))
             # MAP-GET
             m = re.match(r"(.*)::get\((.*)\)$", a)
             if m:
